@@ -130,8 +130,11 @@ fn ipa(ctx: &mut Ctx, rng: &mut ChaCha20Rng) {
     let npoints = range(rng, 1, 2);
     let mut seen = Vec::new();
     let mut ok = true;
-    for d in [2usize, 3, 5, 8, 16, 31, 64, 100, 255] {
-        let cfg = Cfg { max_degree: d, num_vars: None, supported_degree: d, supported_hiding: 1, enforced: None };
+    for d in [2usize, 3, 5, 7, 8, 15, 16, 31, 63, 64, 100, 255] {
+        // the universal parameters may be larger than the trimmed key, and the tight bound may be listed as enforced:
+        // the number of rounds follows the REQUESTED supported degree
+        let max_degree = [d, 2 * d + 1, 4 * d + 3][below(rng, 3)];
+        let cfg = Cfg { max_degree, num_vars: None, supported_degree: d, supported_hiding: 1, enforced: if bounded && rng.next_u32() % 2 == 0 { Some(vec![d]) } else { None } };
         match measure::<S>(&cfg, d, if bounded { Some(d) } else { None }, if hiding { Some(1) } else { None }, npolys, npoints, rng) {
             Ok(s) => {
                 let rounds = ((d + 1).next_power_of_two()).trailing_zeros() as usize;
